@@ -57,6 +57,7 @@ type Cfg struct {
 	Net            string         `json:"net,omitempty"`            // "real": kafka.Transport + fake cluster instead of the scripted RoundTripper
 	ProduceVersion int            `json:"produceVersion,omitempty"` // real mode: highest Produce version the broker offers
 	WriteTimeoutMs int            `json:"writeTimeoutMs,omitempty"`
+	RequireAll     bool           `json:"requireAll,omitempty"` // acked writers: RequiredAcks = RequireAll (-1) instead of RequireOne
 }
 
 type Script struct {
